@@ -6,8 +6,11 @@
 //	      ont.F.T.A / ong.F.T.A (transfer of A units from account F to account T, accounts 0..3, 0 = bookkeeper holding
 //	      the whole ONT supply) and claim.F.A (F claims A units of unbound ONG: transferFrom the ONT contract)
 //	h     the block whose commit is interrupted (1 <= h, h+2 <= n: two following blocks must exist)
-//	k     number of LevelDB batch commits that became durable, in the order of submitBlock: 0 none, 1 block store,
-//	      2 block+event store, 3 block+event+state store
+//	k     WHICH of the three LevelDB batch commits became durable: a subset of {b,e,s} (block, event, state store) written
+//	      `-`, `b`, `e`, `s`, `be`, `bs`, `es`, `bes` (legacy digits 0..3 = `-`, `b`, `be`, `bes`). All 8 subsets are composed
+//	      and reopened on the real code; the recovery predicate is evaluated on the REACHABLE ones = the prefixes of the
+//	      order of the three CommitTo calls that submitBlock of the tree under check has NOW (read from its source,
+//	      $VERIF_REPO/core/store/ledgerstore/ledger_store.go, at start-up). Unreachable subsets only report `reach=0 open=.. h=..`.
 //	t     number of bytes of the block's eager hash-file append that became durable (`all` or a byte count, clamped)
 //
 // The real ledger (ledgerkit: LedgerStoreImp over LevelDB directories) builds the uncrashed chain once per block list,
@@ -23,6 +26,9 @@ package main
 
 import (
 	"fmt"
+	"go/ast"
+	"go/parser"
+	"go/token"
 	"os"
 	"path/filepath"
 	"strconv"
@@ -57,7 +63,74 @@ type ref struct {
 	err    string
 }
 
+// srcOrder is the order of the three CommitTo calls in submitBlock of the tree under check ("bes" as shipped);
+// "" with srcOrderErr set when the source does not have exactly one call of each.
+var srcOrder, srcOrderErr string
+
+func readCommitOrder() {
+	repo := os.Getenv("VERIF_REPO")
+	if repo == "" {
+		repo = "/repo"
+	}
+	file := filepath.Join(repo, "core/store/ledgerstore/ledger_store.go")
+	fset := token.NewFileSet()
+	f, err := parser.ParseFile(fset, file, nil, 0)
+	if err != nil {
+		srcOrderErr = err.Error()
+		return
+	}
+	letters := map[string]string{"blockStore": "b", "eventStore": "e", "stateStore": "s"}
+	found := false
+	for _, d := range f.Decls {
+		fd, ok := d.(*ast.FuncDecl)
+		if !ok || fd.Name.Name != "submitBlock" || fd.Body == nil {
+			continue
+		}
+		found = true
+		ast.Inspect(fd.Body, func(n ast.Node) bool {
+			ce, ok := n.(*ast.CallExpr)
+			if !ok {
+				return true
+			}
+			sel, ok := ce.Fun.(*ast.SelectorExpr)
+			if !ok || sel.Sel.Name != "CommitTo" {
+				return true
+			}
+			if in, ok := sel.X.(*ast.SelectorExpr); ok {
+				if id, ok := in.X.(*ast.Ident); ok && id.Name == "this" {
+					srcOrder += letters[in.Sel.Name]
+				}
+			}
+			return true
+		})
+	}
+	if !found || len(srcOrder) != 3 || !strings.Contains(srcOrder, "b") || !strings.Contains(srcOrder, "e") || !strings.Contains(srcOrder, "s") {
+		srcOrderErr = fmt.Sprintf("%s: submitBlock does not call blockStore/eventStore/stateStore.CommitTo exactly once each (found %q)", file, srcOrder)
+		srcOrder = ""
+	}
+}
+
+// reachable: the subset is the set of the first k commits of the source's order for some k.
+func reachable(set string) bool {
+	for k := 0; k <= 3; k++ {
+		ok := len(set) == k
+		for _, c := range srcOrder[:k] {
+			if !strings.ContainsRune(set, c) {
+				ok = false
+			}
+		}
+		if ok {
+			return true
+		}
+	}
+	return false
+}
+
+var legacyK = map[string]string{"0": "-", "1": "b", "2": "be", "3": "bes"}
+var validSet = map[string]bool{"-": true, "b": true, "e": true, "s": true, "be": true, "bs": true, "es": true, "bes": true}
+
 func initAccts() {
+	readCommitOrder()
 	ledgerkit.InitGlobals()
 	tmpRoot = ledgerkit.TmpDir("c01")
 	for i := 0; i < nAccts; i++ {
@@ -236,12 +309,26 @@ func exec(line string) hx.Result {
 		return hx.Result{Out: "bad-op"}
 	}
 	h, e1 := strconv.Atoi(hd[1])
-	k, e2 := strconv.Atoi(hd[2])
+	set := hd[2]
+	if l, ok := legacyK[set]; ok {
+		set = l
+	}
 	ops := strings.Split(sp[1], ";")
 	n := len(ops)
-	if e1 != nil || e2 != nil || h < 1 || h+2 > n || k < 0 || k > 3 {
+	if e1 != nil || !validSet[set] || h < 1 || h+2 > n {
 		return hx.Result{Out: "skip", Kind: "skip"}
 	}
+	if srcOrder == "" {
+		return hx.Result{Out: "order-unknown", Fail: "commit order of submitBlock not readable: " + srcOrderErr, Class: "commit-order-unreadable", Kind: "harness-error"}
+	}
+	set = strings.Trim(set, "-")
+	hasB, hasE, hasS := strings.Contains(set, "b"), strings.Contains(set, "e"), strings.Contains(set, "s")
+	k := len(set)
+	kname := set
+	if kname == "" {
+		kname = "none"
+	}
+	reach := reachable(set)
 	r := getRef(sp[1])
 	if r.err != "" {
 		// the uncrashed run itself failed: not a crash case (bad op list) unless it is a reopen failure of the uncrashed ledger
@@ -272,17 +359,17 @@ func exec(line string) hx.Result {
 		tkind = "midhash"
 	}
 	// a state-store commit with a torn hash file needs the file's Sync to have been lost: not reachable by process death
-	fsyncLost := k == 3 && t < app
+	fsyncLost := hasS && t < app
 
 	if fsyncLost {
 		// not executed: the model prints the same token. (As shipped this state opens with the hash store disabled and
 		// StateStore.Close then dereferences the nil store; outside the property's quantifier.)
-		return hx.Result{Out: "unreachable", Kind: "k3-torn-file(unreachable: needs a lost fsync)"}
+		return hx.Result{Out: "unreachable", Kind: "state-committed-torn-file(unreachable: needs a lost fsync)"}
 	}
 	caseSeq++
 	dir := filepath.Join(tmpRoot, fmt.Sprintf("case%d", caseSeq))
 	defer os.RemoveAll(dir)
-	if err := ledgerkit.ComposeCrashDir(dir, r.snaps[h-1], r.snaps[h], k >= 1, k >= 2, k >= 3, t); err != nil {
+	if err := ledgerkit.ComposeCrashDir(dir, r.snaps[h-1], r.snaps[h], hasB, hasE, hasS, t); err != nil {
 		return hx.Result{Out: "compose-failed", Fail: "compose: " + err.Error(), Class: "harness", Kind: "harness-error"}
 	}
 
